@@ -92,7 +92,13 @@ type concOp struct {
 	txAt, ackAt int64 // simulated ms
 }
 
-func judgeConc(w *world) {
+func judgeConc(w *world) { judgeConcFor("C20")(w) }
+
+func judgeConcFor(prop string) func(w *world) {
+	return func(w *world) { judgeConcProp(w, prop) }
+}
+
+func judgeConcProp(w *world, prop string) {
 	endMs := w.nowMs()
 	if len(w.settles) == 0 {
 		return
@@ -133,7 +139,7 @@ func judgeConc(w *world) {
 		}
 		ak, akAt := rxStamp(s.C, cl.epoch, ack, int(s.I), tx)
 		if ak < 0 {
-			w.o.violate("C20", "control-unanswered", si, endMs, map[string]string{"op": s.K}, "client %d's %s %v (packet id %d) was never answered although its connection stayed up", s.C, s.K, s.L, s.I)
+			w.o.violate(prop, "control-unanswered", si, endMs, map[string]string{"op": s.K}, "client %d's %s %v (packet id %d) was never answered although its connection stayed up", s.C, s.K, s.L, s.I)
 			return
 		}
 		if final[s.C] == nil {
@@ -165,7 +171,7 @@ func judgeConc(w *world) {
 			}
 			sort.Strings(want)
 			if strings.Join(got, " ") != strings.Join(want, " ") {
-				w.o.violate("C20", "lost-or-torn-update", len(w.c.Steps), endMs, map[string]string{"more": fmt.Sprint(len(got) > len(want))},
+				w.o.violate(prop, "lost-or-torn-update", len(w.c.Steps), endMs, map[string]string{"more": fmt.Sprint(len(got) > len(want))},
 					"after the settle node %d lists the filters %v for client %d; the acknowledged subscribe/unsubscribe history leaves %v", ni, got, id, want)
 				return
 			}
@@ -184,7 +190,7 @@ func judgeConc(w *world) {
 		}
 		pack, packAt := rxStamp(s.C, pcl.epoch, tPUBACK, int(s.I), ptx)
 		if pack < 0 {
-			w.o.violate("C20", "publish-unanswered", si, endMs, nil, "client %d's QoS 1 publish %s was never acknowledged although nothing failed", s.C, s.S)
+			w.o.violate(prop, "publish-unanswered", si, endMs, nil, "client %d's QoS 1 publish %s was never acknowledged although nothing failed", s.C, s.S)
 			return
 		}
 		settled := w.stepAt[si] >= last.AtMs
@@ -210,7 +216,11 @@ func judgeConc(w *world) {
 						continue
 					}
 					if !o.unsub {
-						if o.ack < ptx {
+						// acknowledged before the publish was sent - or, on the publisher's own node,
+						// before a publish worker took the message up: the SUBACK was written (its
+						// stamp taken) before the worker started to resolve the destinations
+						ds, taken := w.dispatchStamp[s.S]
+						if o.ack < ptx || (taken && o.ack < ds && cl.node == pcl.node) {
 							certain, possible = true, true
 						} else if o.txAt <= horizon {
 							possible = true
@@ -243,11 +253,11 @@ func judgeConc(w *world) {
 			judged++
 			switch {
 			case got < must:
-				w.o.violate("C20", "publish-lost", si, endMs, map[string]string{"racing": fmt.Sprint(allowed > must)},
-					"publish %s on %q (acknowledged at %dms) reached client %d %d times; %d of its matching subscriptions had been acknowledged before the publish was sent and were left alone until 2 s after the PUBACK", s.S, s.T, packAt, id, got, must)
+				w.o.violate(prop, "publish-lost", si, endMs, map[string]string{"racing": fmt.Sprint(allowed > must)},
+					"publish %s on %q (acknowledged at %dms) reached client %d %d times; %d of its matching subscriptions had been acknowledged before the publish was sent (or, on the same node, before a publish worker took it up) and were left alone until 2 s after the PUBACK", s.S, s.T, packAt, id, got, must)
 				return
 			case got > allowed:
-				w.o.violate("C20", "publish-invented", si, endMs, nil,
+				w.o.violate(prop, "publish-invented", si, endMs, nil,
 					"publish %s on %q reached client %d %d times; at most %d of its subscriptions matched it at any time between the publish and 2 s after its acknowledgement", s.S, s.T, id, got, allowed)
 				return
 			}
@@ -255,6 +265,72 @@ func judgeConc(w *world) {
 	}
 	w.o.Stats["conc.deliveries_judged"] += int64(judged)
 	w.o.Nontrivial = judged > 0
+}
+
+// C02 under controlled scheduling: a SUBSCRIBE and matching QoS 1 publishes of another client in
+// one driver turn, on one node; a publish that a worker takes up after the SUBACK was written must
+// reach the subscriber.
+func genC02Conc(r *Rand, tier, profile string) *Case {
+	c := &Case{Profile: "conc", Knobs: map[string]int64{"sched": 1, "nodes": 1}}
+	if r.Bool(0.7) {
+		c.Knobs["sched_focus"] = focusKnob("wasp/packets.go")
+	}
+	nsub := r.Range(1, 2)
+	var ts []tstep
+	t := int64(1)
+	for i := 0; i <= nsub; i++ {
+		ts = append(ts, tstep{t, Step{K: "connect", C: i, N: 0, S: fmt.Sprintf("cc%d", i), U: "u", T: "p", I: 3000}})
+		t += int64(r.Range(0, 3))
+	}
+	t += 30
+	pid := map[int]int{}
+	tag := 0
+	rounds := r.Range(1, 3)
+	if tier == "thorough" {
+		rounds = r.Range(2, 5)
+	}
+	for round := 0; round < rounds; round++ {
+		sub := 1 + r.Intn(nsub)
+		pid[sub]++
+		filters := []string{fmt.Sprintf("k/%d/#", round)}
+		qos := []int{r.Intn(2)}
+		if r.Bool(0.4) {
+			filters = append(filters, "k/+/y")
+			qos = append(qos, r.Intn(2))
+		}
+		turn := []Step{{K: "sub", C: sub, L: filters, QL: qos, I: int64(pid[sub])}}
+		for n := r.Range(1, 3); n > 0; n-- {
+			tag++
+			pid[0]++
+			turn = append(turn, Step{K: "pub", C: 0, T: r.Pick([]string{fmt.Sprintf("k/%d/x", round), fmt.Sprintf("k/%d/y", round)}), S: fmt.Sprintf("m%d", tag), Q: 1, I: int64(100 + pid[0])})
+		}
+		if r.Bool(0.3) {
+			turn[0], turn[len(turn)-1] = turn[len(turn)-1], turn[0]
+		}
+		for j := range turn {
+			turn[j].W = j+1 < len(turn)
+			ts = append(ts, tstep{t, turn[j]})
+		}
+		t += int64(r.PickInt([]int{40, 150, 400}))
+	}
+	t += 400
+	ts = append(ts, tstep{t, Step{K: "settle"}})
+	t += settleDur + 20
+	ts = append(ts, tstep{t, Step{K: "pub", C: 0, T: "k/0/x", S: "late0", Q: 1, I: 990}})
+	ts = append(ts, tstep{t + 50, Step{K: "sleep", I: 1500}})
+	c.Steps = mergeTimelines(ts)
+	return c
+}
+
+func runC02Conc(t *testing.T, c *Case) *Outcome {
+	return runE1(t, c, profileHooks{judge: judgeConcFor("C02")})
+}
+
+func init() {
+	register(&Check{ID: "C02", Variant: "conc", Level: "exploration", Build: "lockstep", Gen: genC02Conc, Run: runC02Conc, QuickS: 25, ThoroughS: 300,
+		Rule: "whole-broker variant under controlled goroutine scheduling (DESIGN 2.1b): one node, 1-2 subscribers and a publisher; turns in which a SUBSCRIBE (1-2 filters) and 1-3 matching QoS 1 publishes of the other client are inside the broker at the same time, every broker goroutine released by the simulator's PRNG, mostly at the statements of wasp/packets.go; a publish that a publish worker took up after the SUBACK had been written (global stamps) and that was acknowledged must reach the subscriber; non-trivial when >=1 delivery judged",
+		Real: e1Real, Stub: append([]string{"goroutine scheduling inside the broker: the simulator's PRNG over parked goroutines (DESIGN 2.1b)"}, e1Stub...),
+		Assume: []string{"stamps are taken from one atomic counter inside the simulated connection's Write and inside the taps dispatcher, which the publish worker calls right before it resolves destinations", "fault-free network"}})
 }
 
 func runC20Conc(t *testing.T, c *Case) *Outcome {
